@@ -128,3 +128,27 @@ def _pair(spec, model):
     same = ref.iso_id == b.iso_id
     want_same = spec['expect'] == 'same'
     return {'confirmed': same != want_same, 'observed': {'id_a': ref.iso_id, 'id_b': b.iso_id}, 'expected': spec['expect']}
+
+
+@replayer('c05.history')
+def _history(spec, model):
+    """real identifiers: read the id, change the content, compare with the same content built without the earlier read"""
+    import pandas
+    import pygaps
+    from pgv.checks import c05
+    if spec['case'] == 'read_then_convert':
+        used, fresh = c05._mk('point'), c05._mk('point')
+        used.iso_id
+        used.convert_pressure(unit_to='kPa')
+        fresh.convert_pressure(unit_to='kPa')
+        return {'confirmed': used.iso_id != fresh.iso_id, 'observed': {'read_then_converted': used.iso_id, 'converted_only': fresh.iso_id}, 'expected': 'same identifier'}
+    src = c05._mk('point')
+    src.iso_id
+    table = src.data_raw.copy()
+    table['loading'] = table['loading'] * 2
+    meta = dict(src.to_dict())
+    derived = pygaps.PointIsotherm(isotherm_data=table, pressure_key='pressure', loading_key='loading', **meta)
+    scratch = pygaps.PointIsotherm(isotherm_data=pandas.DataFrame({c: list(table[c]) for c in table.columns}), pressure_key='pressure', loading_key='loading', **meta)
+    bad = derived.iso_id != scratch.iso_id or derived.iso_id == src.iso_id
+    return {'confirmed': bad, 'observed': {'original': src.iso_id, 'loading_doubled_from_copy': derived.iso_id, 'loading_doubled_from_scratch': scratch.iso_id},
+            'expected': 'doubled data: a different identifier, the same by both routes'}
